@@ -51,6 +51,11 @@ func (rt *runtime) newRegExpObject(pattern string, flags string) *object {
 
 	re2pattern, err := parser.TransformRegExp(pattern)
 	if err != nil {
+		if re2pattern == "" {
+			// Not a pattern in JavaScript either.
+			panic(rt.panicSyntaxError("Invalid regular expression: %s", err.Error()))
+		}
+		// Valid, but not supported by re2 (lookahead, backreference).
 		panic(rt.panicTypeError("Invalid regular expression: %s", err.Error()))
 	}
 	if len(re2flags) > 0 {
